@@ -51,7 +51,7 @@ probes_struct! {
         rt_c07_checked, rt_c07_skipped, rt_c10_checked, rt_c10_running_checked, rt_c10_skipped,
         rt_c12_checked, rt_c12_abandoned, rt_c12_unfinished,
         t5_probes, fresh_twin_steps, fork_lockstep_steps, telemetry_calls,
-        multi_channel_runs, fault_free_runs,
+        multi_channel_runs, fault_free_runs, polls_straddling_deadline, calls_during_which_time_passed,
     }
     arrays: {
         rule_evals: N_RULES,
@@ -66,8 +66,8 @@ probes_struct! {
         reset_cells: 6,
         witness: 16,
         api_calls: 40,
-        faults_fired: 24,
-        faults_in_flight: 24,
+        faults_fired: 25,
+        faults_in_flight: 25,
         repr_used: 4,
         channels_used: 16,
         timeout_class_runs: 3,
